@@ -26,11 +26,13 @@ NSHARDS = int(os.environ.get('FJVERIF_SHARDS', '16'))
 class Ok:
     status = 'ok'
 
-    def __init__(self, classes=(), nontrivial=False, sample=None, note=None):
+    def __init__(self, classes=(), nontrivial=False, sample=None, note=None, evals=1, distinct=None):
         self.classes = list(classes)
         self.nontrivial = nontrivial
         self.sample = sample
         self.note = note
+        self.evals = evals          # inputs evaluated inside this case (operand sweeps evaluate many per case)
+        self.distinct = distinct    # number of distinct non-trivial inputs inside this case (None: the case itself)
 
 
 class Violation:
@@ -98,9 +100,10 @@ class ShardStats:
         self.failure = None  # dict(case, key, detail, family)
         self.notes = {}
         self.exhaustive = {}
+        self.extra_distinct = 0
 
     def to_dict(self):
-        return {'evaluations': self.evaluations, 'nontrivial_hashes': sorted(self.nontrivial_hashes),
+        return {'evaluations': self.evaluations, 'nontrivial_hashes': sorted(self.nontrivial_hashes), 'extra_distinct': self.extra_distinct,
                 'classes': self.classes, 'discarded': self.discarded, 'excluded_known': self.excluded_known,
                 'samples': self.samples, 'budget_skipped': self.budget_skipped, 'failure': self.failure,
                 'notes': self.notes, 'exhaustive': self.exhaustive}
@@ -113,7 +116,7 @@ def _account(stats, mod, case, res, known, family, counting=True):
             stats.discarded[res.reason] = stats.discarded.get(res.reason, 0) + 1
         return None
     if counting:
-        stats.evaluations += 1
+        stats.evaluations += getattr(res, 'evals', 1) or 1
         for c in res.classes:
             stats.classes[c] = stats.classes.get(c, 0) + 1
     if res.status == 'violation':
@@ -124,7 +127,11 @@ def _account(stats, mod, case, res, known, family, counting=True):
         return res
     if counting:
         if res.nontrivial:
-            stats.nontrivial_hashes.add(case_hash(case))
+            h = case_hash(case)
+            if getattr(res, 'distinct', None) is not None:
+                if h not in stats.nontrivial_hashes:
+                    stats.extra_distinct += max(0, res.distinct - 1)
+            stats.nontrivial_hashes.add(h)
             if len(stats.samples) < 3:
                 stats.samples.append({'family': family, 'case': truncate(res.sample if res.sample is not None else case)})
         if res.note:
@@ -332,7 +339,9 @@ def main(argv=None):
             if r.get('harness_error'):
                 harness_errors.append((k, r['harness_error']))
             merged.evaluations += r['evaluations']
+            new_hashes = set(r['nontrivial_hashes']) - merged.nontrivial_hashes
             merged.nontrivial_hashes |= set(r['nontrivial_hashes'])
+            merged.extra_distinct += r.get('extra_distinct', 0) if (new_hashes or not r['nontrivial_hashes']) else 0
             for field in ('classes', 'discarded', 'excluded_known', 'notes'):
                 tgt = getattr(merged, field)
                 for kk, vv in r[field].items():
@@ -363,7 +372,7 @@ def main(argv=None):
         wall = time.time() - t0
         cov = {
             'evaluations': merged.evaluations,
-            'distinct_nontrivial': len(merged.nontrivial_hashes),
+            'distinct_nontrivial': len(merged.nontrivial_hashes) + merged.extra_distinct,
             'rule': mod.RULE,
             'samples': merged.samples[:8],
             'classes': dict(sorted(merged.classes.items())),
@@ -387,7 +396,7 @@ def main(argv=None):
         with open(os.path.join(VERIF, 'evidence', pid + '.json'), 'w') as f:
             json.dump(ev, f, indent=1, default=str)
         print('%s %s: evaluations=%d distinct_nontrivial=%d excluded_known=%s discarded=%s skipped=%d wall=%.1fs' % (
-            pid, tier, merged.evaluations, len(merged.nontrivial_hashes), merged.excluded_known,
+            pid, tier, merged.evaluations, len(merged.nontrivial_hashes) + merged.extra_distinct, merged.excluded_known,
             sum(merged.discarded.values()), merged.budget_skipped, wall))
         return 1 if violations else 0
     except Exception:
